@@ -30,6 +30,7 @@ structure Hdr where
   status  : Nat := 0
   context : Bytes               -- 8 octets
   options : Nat := 0
+  length  : Nat := 0            -- the length field = number of payload octets (what the harness sent)
 deriving Repr, DecidableEq
 
 /-- a port/link route path segment -/
@@ -41,10 +42,18 @@ inductive Wrap
   | usend (cls ins prio ticks : Nat) (route : List RouteSeg)  -- Unconnected Send 0x52 to @cls/ins + route path
 deriving Repr, DecidableEq
 
+/-- the Connection Manager's own services, as its parsers deliver them (path @6/1) -/
+inductive CmReq
+  | fwdOpen (large : Bool) (prio ticks otId toId serial vendor oserial mult otRpi otNcp toRpi toNcp tct : Nat)
+      (cpath : Path)
+  | fwdClose (prio ticks serial vendor oserial : Nat) (cpath : Path)
+deriving Repr, DecidableEq
+
 /-- the embedded CIP request; `raw` = its bytes as sent (only the unrepaired `processOld` looks at them) -/
 inductive Cip
   | req (r : Req) (raw : Bytes)
   | unknown (code : Nat) (path : Path) (raw : Bytes)          -- a service code no Object's parser knows
+  | cm (r : CmReq) (raw : Bytes)                               -- [Large] Forward Open / Forward Close to @6/1
 deriving Repr, DecidableEq
 
 inductive Body
@@ -124,6 +133,7 @@ objects with the same UCMM (the simulator itself), one hop away. -/
 structure Cfg where
   route  : RouteCfg := .any
   routes : List RouteSeg := []
+  size   : Option Nat := none       -- `enip_server --size`: limit on the payload of a request
 deriving Repr, DecidableEq
 
 /-- per-connection state: the device, the stream `random.randint` will deliver, `UCMM.sessions[addr]` -/
@@ -132,6 +142,7 @@ structure Srv where
   rand      : List Nat
   session   : Option Nat := none
   routeConn : Bool := false       -- `UCMM.route_conn[target]`: a registered client connection to the route's device
+  forwards  : List (Nat × Nat) := []   -- `Connection_Manager.forwards` of this peer: (O->T connection ID, connection serial)
 deriving Repr, DecidableEq
 
 /-! ### pieces of UCMM.request -/
@@ -188,10 +199,12 @@ def Cip.path : Cip → Path
     | .getAttrSingle p | .setAttrSingle p _ | .getAttrAll p => p
   | .req (.multiple p _) _ => p
   | .unknown _ p _ => p
+  | .cm _ _ => [.cls Generated.cmClass, .ins 1]
 
 def Cip.raw : Cip → Bytes
   | .req _ raw => raw
   | .unknown _ _ raw => raw
+  | .cm _ raw => raw
 
 def simpleService : Simple → Nat
   | .readTag .. => Generated.svcReadTag
@@ -210,6 +223,8 @@ def reqService : Req → Nat
 def Cip.service : Cip → Nat
   | .req r _ => reqService r
   | .unknown code _ _ => code
+  | .cm (.fwdOpen large ..) _ => if large then Generated.svcFwdOpenLarge else Generated.svcFwdOpen
+  | .cm (.fwdClose ..) _ => Generated.svcFwdClose
 
 /-- `Connection_Manager.request` on the embedded request: the Object its path designates -- or, when the path
 does not resolve to an existing Object (unknown Tag, unknown Object), the Message Router @2/1 -- parses and
@@ -221,6 +236,52 @@ def cmRequest (d : Dev) (c : Cip) : Dev × Option Bytes :=
   match c with
   | .req r _ => exec d r
   | .unknown .. => (d, none)
+  | .cm .. => (d, none)           -- (served by `execCm`, see `cmServe`)
+
+/-! ### the Connection Manager's own services -/
+
+/-- `random.randint` of device.py (connection IDs): any value will do -/
+def draw : List Nat → Option (Nat × List Nat)
+  | [] => none
+  | x :: xs => some (x, xs)
+
+/-- `defaults.Connection.decoding`: connection size and type out of the Network Connection Parameters
+(16-bit; Large: 32-bit, the parameter bits 16 places higher) -/
+def ncpSize (large : Bool) (ncp : Nat) : Nat := ncp % (if large then 65536 else 512)
+def ncpType (large : Bool) (ncp : Nat) : Nat := (ncp / 2 ^ (13 + (if large then 16 else 0))) % 4
+
+def fwdOpenRpy (large : Bool) : Nat := (if large then Generated.svcFwdOpenLarge else Generated.svcFwdOpen) + 128
+
+/-- `Connection_Manager.request` for [Large] Forward Open / Forward Close: always a reply (status 0x00 or 0x08).
+Quirks mirrored: a Forward Open whose (peer, O->T connection ID) is already known always fails -- the comparison
+with the stored one calls a method dotdict does not have; Forward Close succeeds whether or not it matches. -/
+def execCm (s : Srv) : CmReq → Srv × Bytes
+  | .fwdOpen large _ _ otId toId serial vendor oserial _ otRpi otNcp toRpi toNcp _ _ =>
+    let svc := fwdOpenRpy large
+    let fail : Bytes := [svc, 0, 8, 0] ++ Bytes.le 2 serial ++ Bytes.le 2 vendor ++ Bytes.le 4 oserial
+    -- `defaults.Connection( **fo.O_T )`: assert 0 < size
+    if ncpSize large otNcp = 0 || ncpSize large toNcp = 0 then (s, fail) else
+    -- the Target picks the O->T connection ID of a point-to-point, the T->O ID of a multicast connection
+    match (if ncpType large otNcp = Generated.connTypeP2P then draw s.rand else some (otId, s.rand)) with
+    | none => ({ s with rand := [] }, fail)
+    | some (ot, r1) =>
+      match (if ncpType large toNcp = Generated.connTypeMC then draw r1 else some (toId, r1)) with
+      | none => ({ s with rand := [] }, fail)
+      | some (to, r2) =>
+        if s.forwards.any (·.1 == ot) then ({ s with rand := r2 }, fail)
+        else
+          ({ s with rand := r2, forwards := s.forwards ++ [(ot, serial)] },
+           [svc, 0, 0, 0] ++ Bytes.le 4 ot ++ Bytes.le 4 to ++ Bytes.le 2 serial ++ Bytes.le 2 vendor
+             ++ Bytes.le 4 oserial ++ Bytes.le 4 otRpi ++ Bytes.le 4 toRpi ++ [0, 0])
+  | .fwdClose _ _ serial vendor oserial _ =>
+    ({ s with forwards := s.forwards.filter (·.2 != serial) },
+     [Generated.svcFwdClose + 128, 0, 0, 0] ++ Bytes.le 2 serial ++ Bytes.le 2 vendor ++ Bytes.le 4 oserial ++ [0, 0])
+
+/-- the embedded request served by whoever it is for -/
+def cmServe (s : Srv) (c : Cip) : Srv × Option Bytes :=
+  match c with
+  | .cm r _ => let (s', bs) := execCm s r; (s', some bs)
+  | c => let (d', o) := cmRequest s.dev c; ({ s with dev := d' }, o)
 
 /-- CPF item list -/
 def cpfEncode (items : List (Nat × Bytes)) : Bytes :=
@@ -232,7 +293,16 @@ def sendFraming (iface timeout : Nat) (bs : Bytes) : Bytes :=
 
 /-! ### logix.process / UCMM.request -/
 
-def processWith (fixed : Bool) (cfg : Cfg) (s : Srv) (f : Frame) : Srv × Outcome :=
+/-- the request's payload is within the configured limit (`len( data.request.enip.input ) > int( kwds['size'] )`) -/
+def fits (cfg : Cfg) (f : Frame) : Bool :=
+  match cfg.size with
+  | none => true
+  | some n => f.hdr.length ≤ n
+
+def sizeFailStatus : Nat := Generated.sizeFailStatus
+
+/-- `UCMM.request` (and, for a frame the command parser rejects, the exception out of `logix.process`) -/
+def processBody (fixed : Bool) (cfg : Cfg) (s : Srv) (f : Frame) : Srv × Outcome :=
   match f.body with
   | .register proto opts _ =>
     match pickNonzero s.rand with
@@ -265,18 +335,23 @@ def processWith (fixed : Bool) (cfg : Cfg) (s : Srv) (f : Frame) : Srv × Outcom
         if !routeAccepts cfg.route inner || !usendToCM inner then
           ({ s1 with routeConn := false }, .reply (echo f routeFailStatus []))
         else
-          match cmRequest s1.dev c with
-          | (d', some bs) => ({ s1 with dev := d' }, .reply (echo f 0 (sendFraming iface timeout bs)))
-          | (d', none) => ({ s1 with dev := d', routeConn := false }, .reply (echo f routeFailStatus []))
+          match cmServe s1 c with
+          | (s2, some bs) => (s2, .reply (echo f 0 (sendFraming iface timeout bs)))
+          | (s2, none) => ({ s2 with routeConn := false }, .reply (echo f routeFailStatus []))
     | none =>
     if !routeAccepts cfg.route w then (s, refuse f)
     else if !fixed && usendToRouterOld w then
       (s, .reply (echo f f.hdr.status (sendFraming iface timeout c.raw)))
     else if !usendToCM w then (s, refuse f)
     else
-      match cmRequest s.dev c with
-      | (d', some bs) => ({ s with dev := d' }, .reply (echo f f.hdr.status (sendFraming iface timeout bs)))
-      | (d', none) => ({ s with dev := d' }, refuse f)
+      match cmServe s c with
+      | (s', some bs) => (s', .reply (echo f f.hdr.status (sendFraming iface timeout bs)))
+      | (s', none) => (s', refuse f)
+
+/-- `logix.process`: after the command parser has accepted the frame, and before anything is done with it, a
+payload over the size limit is refused (even an Unregister Session is then *answered*) -/
+def processWith (fixed : Bool) (cfg : Cfg) (s : Srv) (f : Frame) : Srv × Outcome :=
+  if f.parsable && !fits cfg f then (s, .reply (echo f sizeFailStatus [])) else processBody fixed cfg s f
 
 def process := processWith true
 def processOld := processWith false
@@ -327,16 +402,29 @@ def serveBatches (cfg : Cfg) : Srv → List (List Frame) → Run
 /-- several connections one after the other (same peer address), on the same device and UCMM -/
 def serveSessions (cfg : Cfg) : Srv → List (List Frame) → List Run
   | _, [] => []
-  | s, fs :: rest => let r := serve cfg s fs; r :: serveSessions cfg r.srv rest
+  | s, fs :: rest =>
+    let r := serve cfg s fs
+    -- at EOF, and after an exception, `enip_process( addr, data={} )` lets the Connection Manager forget the peer
+    let s' := if r.end == .closed then r.srv else { r.srv with forwards := [] }
+    r :: serveSessions cfg s' rest
 
 /-! ### which frames the model speaks about -/
 
+def Cip.isCm : Cip → Bool
+  | .cm .. => true
+  | _ => false
+
 def Cip.inScope (d : Dev) (c : Cip) : Bool :=
-  (match resolve d.symbols .no c.path with
+  (c.isCm || match resolve d.symbols .no c.path with
    | some (cl, i, _) => !Generated.builtinClasses.contains cl && i != 0
    | none => true) &&
   (match c with
    | .req .. => true
+   | .cm (.fwdOpen _ prio ticks otId toId serial vendor oserial mult otRpi otNcp toRpi toNcp tct _) _ =>
+     prio < 256 && ticks < 256 && otId < 2 ^ 32 && toId < 2 ^ 32 && serial < 65536 && vendor < 65536
+       && oserial < 2 ^ 32 && mult < 256 && otRpi < 2 ^ 32 && toRpi < 2 ^ 32 && otNcp < 2 ^ 32 && toNcp < 2 ^ 32 && tct < 256
+   | .cm (.fwdClose prio ticks serial vendor oserial _) _ =>
+     prio < 256 && ticks < 256 && serial < 65536 && vendor < 65536 && oserial < 2 ^ 32
    | .unknown code _ _ =>
      code < 128 && ![Generated.svcReadTag, Generated.svcReadFrag, Generated.svcWriteTag, Generated.svcWriteFrag,
        Generated.svcGetAttrSingle, Generated.svcSetAttrSingle, Generated.svcGetAttrAll, Generated.svcGetAttrList,
@@ -353,7 +441,7 @@ def Frame.inScope (cfg : Cfg) (d : Dev) (f : Frame) : Bool :=
     c.inScope d &&
     (match routedVia cfg w with
      | some inner =>      -- one hop only; the forwarded request is subject to the same ambiguity
-       !(inner == .direct && c.service == Generated.svcUnconnectedSend) && (routedVia cfg inner).isNone
+       !c.isCm && !(inner == .direct && c.service == Generated.svcUnconnectedSend) && (routedVia cfg inner).isNone
      | none => !(w == .direct && c.service == Generated.svcUnconnectedSend))
   | _ => true
 
